@@ -396,3 +396,62 @@ func (an *Analysis) RetVal(r *ssa.Return, i int) ssa.Value {
 	}
 	return v
 }
+
+// IsURLKeyCall: an interface call that resolves (directly or through a forwarding adapter) to the URL key function.
+func (an *Analysis) IsURLKeyCall(c *ssa.CallCommon, in ssa.Instruction) bool {
+	if c == nil || !c.IsInvoke() {
+		return false
+	}
+	return an.CallsRole(in, "urlKey")
+}
+
+// invokeResolvesTo: the interface call's callees (through adapters) include a repo function satisfying pred.
+func (an *Analysis) invokeResolvesTo(in ssa.Instruction, pred func(*ssa.Function) bool) bool {
+	ci, ok := in.(ssa.CallInstruction)
+	if !ok || !ci.Common().IsInvoke() {
+		return false
+	}
+	for _, cal := range an.P.Callees(ci) {
+		if pred(cal) {
+			return true
+		}
+		for _, t := range an.AdapterTargets(cal) {
+			if pred(t) {
+				return true
+			}
+		}
+	}
+	return false
+}
+
+func callsNamed(fn *ssa.Function, name string) bool {
+	return callsWhere(fn, func(cc *ssa.CallCommon) bool { sc := cc.StaticCallee(); return sc != nil && sc.Name() == name })
+}
+
+// IsFileNamerCall: interface call resolving to the key->file-name encoder (a function that base64-encodes its argument).
+func (an *Analysis) IsFileNamerCall(in ssa.Instruction) bool {
+	return an.invokeResolvesTo(in, func(f *ssa.Function) bool {
+		ps, rs := sigParams(f), sigResults(f)
+		return len(ps) == 1 && len(rs) == 1 && isStringType(ps[0]) && isStringType(rs[0]) && callsNamed(f, "EncodeToString")
+	})
+}
+
+// IsFileKeyerCall: interface call resolving to the file-name->key decoder.
+func (an *Analysis) IsFileKeyerCall(in ssa.Instruction) bool {
+	return an.invokeResolvesTo(in, func(f *ssa.Function) bool {
+		ps, rs := sigParams(f), sigResults(f)
+		return len(ps) == 1 && len(rs) == 2 && isStringType(ps[0]) && isStringType(rs[0]) && callsNamed(f, "DecodeString")
+	})
+}
+
+// IsRefIDField: the (type, field) is the response-id field of an index element: the field RoundTrip reads to look the
+// entry up.
+func (an *Analysis) IsRefIDField(fa *ssa.FieldAddr) bool {
+	if !isPtrToNamed(fa.X.Type(), an.A.RefT) {
+		return false
+	}
+	if an.A.RefIDField < 0 {
+		return fieldName(fa.X.Type(), fa.Field) == "ResponseID"
+	}
+	return fa.Field == an.A.RefIDField
+}
